@@ -202,4 +202,237 @@ Section LiveInv.
     destruct (next_row_sound children fuel _ _ _ _ _ En Hout) as [o' [E [_ Hn]]]. inversion E; subst o'.
     exists o. auto.
   Qed.
+  (* ---------------------------------------------------------------- the end of an evaluation *)
+  (* a wrapper the walk passes over without handing its instance out: the instance is gone, or was handed out before *)
+  Definition handled (L : list orec) (seen : list (option obj)) (w : wrapper) : Prop :=
+    deref L w = None \/ In (Some (w_obj w)) seen.
+
+  Lemma seen_In o seen : existsb (oeqb (Some o)) seen = true -> In (Some o) seen.
+  Proof. intros H. apply existsb_exists in H. destruct H as [y [Hy E]]. apply oeqb_eq in E. now subst. Qed.
+
+  Lemma deref_obj L w o : deref L w = Some o -> o = w_obj w.
+  Proof. intros H. apply deref_some in H. destruct H; auto. Qed.
+
+  Lemma pull_cur_none L seen : forall cur, pull_cur L seen cur = None -> forall w, In w cur -> handled L seen w.
+  Proof.
+    induction cur as [|a cur IH]; simpl; intros H w Hw; [destruct Hw|].
+    destruct (deref L a) as [o|] eqn:D.
+    - destruct (existsb (oeqb (Some o)) seen) eqn:E; [|discriminate].
+      destruct Hw as [<-|Hw]; [|now apply IH]. right. rewrite <- (deref_obj _ _ _ D). now apply seen_In.
+    - destruct Hw as [<-|Hw]; [now left|now apply IH].
+  Qed.
+
+  Lemma pull_cur_some L seen : forall cur v t, pull_cur L seen cur = Some (v, t) ->
+    exists pre w, cur = pre ++ w :: t /\ v = Some (w_obj w) /\ deref L w = Some (w_obj w) /\ forall w', In w' pre -> handled L seen w'.
+  Proof.
+    induction cur as [|a cur IH]; simpl; intros v t H; [discriminate|].
+    destruct (deref L a) as [o|] eqn:D.
+    - destruct (existsb (oeqb (Some o)) seen) eqn:E.
+      + destruct (IH _ _ H) as [pre [w [A [B [C F]]]]]. exists (a :: pre), w. rewrite A. repeat split; auto.
+        intros w' [<-|Hw']; auto. right. rewrite <- (deref_obj _ _ _ D). now apply seen_In.
+      + inversion H; subst. exists [], a. rewrite <- (deref_obj _ _ _ D). repeat split; auto. intros w' [].
+    - destruct (IH _ _ H) as [pre [w [A [B [C F]]]]]. exists (a :: pre), w. rewrite A. repeat split; auto.
+      intros w' [<-|Hw']; auto. now left.
+  Qed.
+
+  Lemma pull_classes_none L r seen : forall cs, pull_classes L r seen cs = None ->
+    forall c w, In c cs -> In w (wl r) -> w_cls w = c -> handled L seen w.
+  Proof.
+    induction cs as [|a cs IH]; simpl; intros H c w Hc Hw Ec; [destruct Hc|].
+    destruct (pull_cur L seen (filter (fun w => w_cls w =? a) (wl r))) as [[v t]|] eqn:E; [discriminate|].
+    destruct Hc as [<-|Hc]; [|eapply IH; eauto].
+    eapply pull_cur_none; eauto. apply filter_In. split; auto. now apply Nat.eqb_eq.
+  Qed.
+
+  Lemma pull_classes_some L r seen : forall cs v t cs', pull_classes L r seen cs = Some (v, t, cs') ->
+    exists pre c, cs = pre ++ c :: cs' /\
+      (forall c0 w, In c0 pre -> In w (wl r) -> w_cls w = c0 -> handled L seen w) /\
+      exists prew w, filter (fun w => w_cls w =? c) (wl r) = prew ++ w :: t /\ v = Some (w_obj w) /\
+                     deref L w = Some (w_obj w) /\ forall w', In w' prew -> handled L seen w'.
+  Proof.
+    induction cs as [|a cs IH]; simpl; intros v t cs' H; [discriminate|].
+    destruct (pull_cur L seen (filter (fun w => w_cls w =? a) (wl r))) as [[v' t']|] eqn:E.
+    - inversion H; subst. exists [], a. split; auto. split; [intros c0 w []|]. now apply pull_cur_some.
+    - destruct (IH _ _ _ H) as [pre [c [A [B C]]]]. exists (a :: pre), c. rewrite A. split; auto. split; auto.
+      intros c0 w [<-|Hc] Hw Ec; [|eapply B; eauto].
+      eapply pull_cur_none; eauto. apply filter_In. split; auto. now apply Nat.eqb_eq.
+  Qed.
+
+  (* every instance created before the evaluation began (id below k) that still exists and is of the right type has been
+     handed out, or is still ahead: in the rest of the current class snapshot, or in a class not reached yet *)
+  Definition Cover (k : nat) (L : list orec) (e : ev) : Prop :=
+    forall x, In x L -> o_id x < k -> le_b children fuel (o_cls x) (e_T e) = true ->
+      In (Some (o_id x)) (e_seen e) \/ (exists w, In w (e_cur e) /\ w_obj w = o_id x) \/ In (o_cls x) (e_classes e).
+
+  Lemma live_not_handled L seen w x : In x L -> w_obj w = o_id x -> handled L seen w -> In (Some (o_id x)) seen.
+  Proof.
+    intros Hx E [D|H]; [|now rewrite <- E].
+    unfold deref in D. rewrite E in D. rewrite (proj2 (mem_obj_true _ _)) in D by eauto. discriminate.
+  Qed.
+
+  (* one request: what was covered stays covered; at the end everything covered has been handed out *)
+  Lemma pull_Cover k L r e :
+    RegInv L r -> AllReg L r -> Cover k L e ->
+    match pull L r e with
+    | Some (v, cur, cs) => Cover k L (EV (e_T e) true false cs cur (e_seen e ++ [v]))
+    | None => forall x, In x L -> o_id x < k -> le_b children fuel (o_cls x) (e_T e) = true -> In (Some (o_id x)) (e_seen e)
+    end.
+  Proof.
+    intros Hr HA HC. unfold pull.
+    assert (Reg : forall x, In x L -> exists w, In w (wl r) /\ w_obj w = o_id x /\ w_cls w = o_cls x).
+    { intros x Hx. destruct (HA _ Hx) as [w [Hw E]]. exists w. repeat split; auto.
+      now destruct (i_wl_live _ _ Hr _ _ Hw Hx E). }
+    destruct (pull_cur L (e_seen e) (e_cur e)) as [[v t]|] eqn:PC.
+    - destruct (pull_cur_some _ _ _ _ _ PC) as [pre [w0 [A [B [_ F]]]]].
+      intros x Hx Hk Hle. simpl. destruct (HC x Hx Hk Hle) as [H|[[w [Hw E]]|H]].
+      + left. rewrite in_app_iff. auto.
+      + rewrite A in Hw. apply in_app_iff in Hw. destruct Hw as [Hw|[<-|Hw]].
+        * left. rewrite in_app_iff. left. apply (live_not_handled L _ w x Hx E). auto.
+        * left. rewrite in_app_iff. right. simpl. rewrite B, E. auto.
+        * right. left. eauto.
+      + right. right. auto.
+    - assert (Hcur : forall x w, In x L -> In w (e_cur e) -> w_obj w = o_id x -> In (Some (o_id x)) (e_seen e)).
+      { intros x w Hx Hw E. apply (live_not_handled L _ w x Hx E). eapply pull_cur_none; eauto. }
+      destruct (pull_classes L r (e_seen e) (e_classes e)) as [[[v t] cs']|] eqn:PK.
+      + destruct (pull_classes_some _ _ _ _ _ _ _ PK) as [pre [c [A [B [prew [w0 [C [D [_ F]]]]]]]]].
+        intros x Hx Hk Hle. simpl. destruct (HC x Hx Hk Hle) as [H|[[w [Hw E]]|H]].
+        * left. rewrite in_app_iff. auto.
+        * left. rewrite in_app_iff. left. eauto.
+        * destruct (Reg x Hx) as [w [Hw [E Ec]]]. rewrite A in H. apply in_app_iff in H. destruct H as [H|[H|H]].
+          -- left. rewrite in_app_iff. left. apply (live_not_handled L _ w x Hx E). eapply B; eauto.
+          -- assert (Hf : In w (filter (fun w => w_cls w =? c) (wl r))).
+             { apply filter_In. split; auto. apply Nat.eqb_eq. congruence. }
+             rewrite C in Hf. apply in_app_iff in Hf. destruct Hf as [Hf|[<-|Hf]].
+             ++ left. rewrite in_app_iff. left. apply (live_not_handled L _ w x Hx E). auto.
+             ++ left. rewrite in_app_iff. right. simpl. rewrite D, E. auto.
+             ++ right. left. eauto.
+          -- right. right. auto.
+      + intros x Hx Hk Hle. destruct (HC x Hx Hk Hle) as [H|[[w [Hw E]]|H]]; auto.
+        * eauto.
+        * destruct (Reg x Hx) as [w [Hw [E Ec]]]. apply (live_not_handled L _ w x Hx E). eapply pull_classes_none; eauto.
+  Qed.
+
+  Lemma fresh_Cover k L T seen : Cover k L (EV T true false (T :: rsub children fuel T) [] seen).
+  Proof.
+    intros x Hx Hk Hle. right. right. simpl.
+    apply (in_classes children fuel) in Hle. apply existsb_exists in Hle. destruct Hle as [c [Hc E]].
+    apply Nat.eqb_eq in E. now subst.
+  Qed.
+
+  Lemma Cover_sub k L L' e : (forall x, In x L' -> In x L \/ k <= o_id x) -> Cover k L e -> Cover k L' e.
+  Proof. intros Hs HC x Hx Hk Hle. destruct (Hs _ Hx) as [H|H]; [auto|lia]. Qed.
+  Definition CovOK (k n : nat) (s : st) : Prop :=
+    k <= next s /\
+    forall e, nth_error (evals s) n = Some (Some e) -> e_started e = true -> e_stale e = false -> Cover k (live s) e.
+
+  Lemma step_CovOK k n s o :
+    Inv s -> AllReg (live s) (g s) -> adm s o = true -> is_clear o = false -> CovOK k n s -> CovOK k n (fst (step s o)).
+  Proof.
+    intros HI HA Ha Hc [Hk HC].
+    assert (Keep : forall L' u r' v nx', next s <= nx' -> (forall x, In x L' -> In x (live s) \/ k <= o_id x) ->
+                     CovOK k n (ST L' u r' v (evals s) nx')).
+    { intros L' u r' v nx' Hn Hs. split; [simpl; lia|]. simpl. intros e He Hst Hsl. eapply Cover_sub; eauto. }
+    assert (Sub : forall p x, In x (filter p (live s)) -> In x (live s) \/ k <= o_id x).
+    { intros p x Hx. apply filter_In in Hx. tauto. }
+    destruct o as [c p i|x| |T|T|T|m|m|m y|m|a f b ia ib|]; simpl in *; try discriminate.
+    - apply Keep; auto. intros x Hx. apply in_app_iff in Hx. destruct Hx as [Hx|[<-|[]]]; [auto|right; simpl; lia].
+    - destruct (pinned (evals s) x); simpl; apply Keep; auto; apply Sub.
+    - apply Keep; auto.
+    - apply Keep; auto.
+    - apply Keep; auto.
+    - apply Keep; auto.
+    - destruct (nth_error (vars s) m); simpl; [apply Keep; auto|split; auto].
+    - (* StartV *) destruct (nth_error (vars s) m); simpl; [|split; auto].
+      split; [simpl; lia|]. simpl. intros e He Hst Hsl.
+      destruct (lt_dec n (length (evals s))) as [Hl|Hl].
+      + rewrite nth_error_app1 in He by auto. auto.
+      + rewrite nth_error_app2 in He by lia. destruct (n - length (evals s)) as [|[|q]]; simpl in He; try discriminate.
+        inversion He; subst. discriminate.
+    - (* NextV *)
+      destruct (nth_error (evals s) m) as [[e|]|] eqn:Em; simpl; [|split; auto|split; auto].
+      destruct (e_stale e) eqn:Est; simpl; [split; auto|].
+      set (r := if e_started e then g s else sweep (live s) (g s)).
+      set (e1 := if e_started e then e else EV (e_T e) true false (e_T e :: rsub children fuel (e_T e)) [] (e_seen e)).
+      assert (Hr : RegInv (live s) r) by (unfold r; destruct (e_started e); [apply HI|apply sweep_inv, HI]).
+      assert (HAr : AllReg (live s) r).
+      { unfold r. destruct (e_started e); auto. apply AllReg_sweep; auto. apply HI. }
+      assert (T1 : e_T e1 = e_T e) by (unfold e1; destruct (e_started e); reflexivity).
+      assert (Se1 : e_seen e1 = e_seen e) by (unfold e1; destruct (e_started e); reflexivity).
+      destruct (pull (live s) r e1) as [[[v cur] cs]|] eqn:P; simpl.
+      + split; [simpl; lia|]. simpl. intros e' He' Hst Hsl. apply nth_error_set_nth in He'. destruct He' as [[-> E]|He'].
+        * inversion E; subst e'.
+          assert (HC1 : Cover k (live s) e1).
+          { unfold e1. destruct (e_started e) eqn:Es; [apply HC; auto|apply fresh_Cover]. }
+          assert (Q := pull_Cover k (live s) r e1 Hr HAr HC1). rewrite P in Q. rewrite T1 in Q. exact Q.
+        * apply HC; auto.
+      + split; [simpl; lia|]. simpl. intros e' He' Hst Hsl. apply nth_error_set_nth in He'. destruct He' as [[_ E]|He']; [discriminate|].
+        eapply Cover_sub; [|apply HC; eauto]. unfold release. apply Sub.
+    - (* CloseV *)
+      destruct (nth_error (evals s) m) eqn:Em; simpl; [|split; auto].
+      split; [simpl; lia|]. simpl. intros e' He' Hst Hsl. apply nth_error_set_nth in He'. destruct He' as [[_ E]|He']; [discriminate|].
+      eapply Cover_sub; [|apply HC; eauto]. unfold release. apply Sub.
+    - destruct (relate (live s) (g s) a f b ia ib) as [r' [nw|]]; simpl; [apply Keep; auto|split; auto].
+  Qed.
+
+  Lemma run_CovOK k n : forall h s, Inv s -> AllReg (live s) (g s) -> adm_run s h = true -> no_clear h = true ->
+    CovOK k n s -> CovOK k n (fst (run s h)).
+  Proof.
+    induction h as [|o h IH]; simpl; intros s HI HA Ha Hc HC; auto.
+    apply andb_true_iff in Ha. destruct Ha as [Ha Hr]. apply andb_true_iff in Hc. destruct Hc as [Hc Hc'].
+    apply negb_true_iff in Hc.
+    assert (H1 := step_Inv children fuel s o HI Ha). assert (H2 := step_AllReg children fuel s o HI Ha Hc HA).
+    assert (H3 := step_CovOK k n s o HI HA Ha Hc HC).
+    destruct (step s o) as [s1 x]. simpl in *. specialize (IH s1 H1 H2 Hr Hc' H3). destruct (run s1 h) as [s2 xs]. auto.
+  Qed.
+
+  Lemma run_app : forall h1 h2 s, fst (run s (h1 ++ h2)) = fst (run (fst (run s h1)) h2).
+  Proof.
+    induction h1 as [|o h1 IH]; intros h2 s; [reflexivity|].
+    cbn [app Registry.run]. destruct (step s o) as [s1 x]. specialize (IH h2 s1).
+    destruct (run s1 (h1 ++ h2)) as [s2 xs]. destruct (run s1 h1) as [s3 ys]. cbn [fst] in *. exact IH.
+  Qed.
+
+  Lemma adm_run_app : forall h1 h2 s, adm_run s (h1 ++ h2) = adm_run s h1 && adm_run (fst (run s h1)) h2.
+  Proof.
+    induction h1 as [|o h1 IH]; intros h2 s; [reflexivity|].
+    cbn [app Registry.adm_run Registry.run]. rewrite IH. destruct (step s o) as [s1 x]. cbn [fst].
+    destruct (run s1 h1) as [s3 ys]. cbn [fst]. now rewrite andb_assoc.
+  Qed.
+
+  (* the end condition, over histories: h1 brings the process to the point where evaluation n has not begun; whatever
+     happens afterwards (h2, no graph re-creation), when evaluation n reports the end, every instance that had been created
+     before it began, still exists and is of the variable's type or a subclass has been handed out by it *)
+  Theorem live_end_complete h1 h2 n y e0 e :
+    adm_run init (h1 ++ h2) = true -> no_clear (h1 ++ h2) = true ->
+    nth_error (evals (fst (run init h1))) n = Some (Some e0) -> e_started e0 = false ->
+    nth_error (evals (fst (run init (h1 ++ h2)))) n = Some (Some e) ->
+    snd (step (fst (run init (h1 ++ h2))) (NextV n y)) = OInst [] ->
+    forall x, In x (live (fst (run init (h1 ++ h2)))) -> o_id x < next (fst (run init h1)) ->
+              le_b children fuel (o_cls x) (e_T e) = true -> In (Some (o_id x)) (e_seen e).
+  Proof.
+    intros Ha Hc E0 S0 En Hout x Hx Hk Hle.
+    rewrite adm_run_app in Ha. apply andb_true_iff in Ha. destruct Ha as [Ha1 Ha2].
+    unfold no_clear in Hc. rewrite forallb_app in Hc. apply andb_true_iff in Hc. destruct Hc as [Hc1 Hc2].
+    set (s1 := fst (run init h1)) in *.
+    assert (HI1 : Inv s1) by (apply reach_Inv; auto).
+    assert (HA1 : AllReg (live s1) (g s1)).
+    { apply run_AllReg; auto; [exact (Inv_init children fuel)|intros z Hz; destruct Hz]. }
+    assert (HC1 : CovOK (next s1) n s1).
+    { split; auto. intros e' He' Hst. rewrite E0 in He'. inversion He'; subst. congruence. }
+    rewrite run_app in *. fold s1 in En, Hout, Hx |- *.
+    set (s := fst (run s1 h2)) in *.
+    assert (HI : Inv s) by (apply run_Inv; auto).
+    assert (HA : AllReg (live s) (g s)) by (apply run_AllReg; auto).
+    assert (HC : CovOK (next s1) n s) by (apply run_CovOK; auto).
+    revert Hout. simpl. rewrite En. destruct (e_stale e) eqn:Est; [discriminate|].
+    destruct (e_started e) eqn:Es.
+    - destruct (pull (live s) (g s) e) as [[[v cur] cs]|] eqn:P; simpl; [discriminate|]. intros _.
+      assert (Q := pull_Cover (next s1) (live s) (g s) e (inv_reg _ HI) HA (proj2 HC e En Es Est)). rewrite P in Q. auto.
+    - (* begun and ended by this very request *)
+      set (e1 := EV (e_T e) true false (e_T e :: rsub children fuel (e_T e)) [] (e_seen e)).
+      destruct (pull (live s) (sweep (live s) (g s)) e1) as [[[v cur] cs]|] eqn:P; simpl; [discriminate|]. intros _.
+      assert (Q := pull_Cover (next s1) (live s) (sweep (live s) (g s)) e1 (sweep_inv _ _ (inv_reg _ HI))
+                     (AllReg_sweep _ _ (inv_reg _ HI) HA) (fresh_Cover _ _ _ _)).
+      rewrite P in Q. apply (Q x Hx Hk Hle).
+  Qed.
 End LiveInv.
